@@ -63,6 +63,31 @@ def graph_case(rng: random.Random):
     return shape, "\n".join(lines), roots
 
 
+def preamble_from_source(run):
+    """The fixed imports of input_types.py are DATA of the model (std_preamble): read them off the generator on
+    every run and fail closed if they can no longer be read or differ."""
+    import ast as _ast
+
+    from graphql import build_schema
+
+    try:
+        from ariadne_codegen.client_generators.input_types import InputTypesGenerator
+
+        gen = InputTypesGenerator(schema=build_schema("type Query { a: Int }"))
+        imports = gen._imports
+        items = []
+        for node in imports:
+            assert isinstance(node, _ast.ImportFrom)
+            items += [f"{'.' * node.level}{node.module or ''}:{a.name}" for a in node.names]
+    except Exception as exc:
+        run.broken("preamble derivation", f"cannot read the fixed imports of InputTypesGenerator any more: {type(exc).__name__}: {exc}")
+        return
+    m = model.call("C09", [Sym("std_preamble")])
+    if sorted(items) != sorted(m) or sorted(items) != sorted(prune_inputs.PREAMBLE):
+        run.broken("preamble", f"InputTypesGenerator starts with imports {sorted(items)}, Model/Prune.v std_preamble is {sorted(m)}")
+    run.extra["preamble_from_source"] = sorted(items)
+
+
 def k1a(ctx):
     run = ctx.run
     from graphql import build_schema
@@ -145,21 +170,43 @@ def requests_for(sc, scratch, extra_cfg=None):
     return reqs
 
 
-def model_cmds(an, unpruned_files, scalars_cfg=None):
+def model_cmds(an, unpruned_files, scalars_cfg=None, snake=True):
+    """generate commands in which every input class is DERIVED by the model from its fields (Model/Prune.v derive);
+    also returns what the derivation must agree with: the names each class of the unpruned file really uses."""
     text_in = unpruned_files.get("input_types.py", "")
     ins_cls = prune_inputs.classes_of(text_in)
     en_cls = prune_inputs.classes_of(unpruned_files.get("enums.py", ""))
     needs = prune_inputs.class_needs(text_in)
-    sc_items = prune_inputs.input_scalar_items(an.schema, scalars_cfg or {})
-    ins = []
-    for name, text in ins_cls:
-        deps, enums = an.graph.get(name, ([], []))
-        ins.append([name, deps, enums, text, needs.get(name, []), sc_items.get(name, [])])
+    fields = prune_inputs.input_fields_sx(an.schema, scalars_cfg or {})
+    ins = [[Sym("derived"), name, text, snake, fields.get(name, [])] for name, text in ins_cls]
     ens = [[n, t] for n, t in en_cls]
     custom = bool(getattr(an, "custom", False))
-    return [[Sym("generate"), ins, ens, an.arg_inputs, an.arg_enums, an.res_enums, an.frag_enums, fi, fe,
+    cmds = [[Sym("generate"), ins, ens, an.arg_inputs, an.arg_enums, an.res_enums, an.frag_enums, fi, fe,
              custom, getattr(an, "builder_inputs", []), getattr(an, "builder_enums", []), prune_inputs.PREAMBLE]
-            for fi, fe in FLAGS], ins_cls, en_cls, needs
+            for fi, fe in FLAGS]
+    derive_cmds = [[Sym("derive"), snake, name, fields.get(name, [])] for name, _ in ins_cls]
+    return cmds, ins_cls, en_cls, needs, derive_cmds
+
+
+def check_derivation(run, sc, an, ins_cls, needs, derived, scalars_cfg):
+    """K1: the model's derivation of (deps, enums, needs, scalar import candidates) from the fields of each input
+    class vs the schema analysis and vs the names the class statement of the generated file refers to."""
+    sc_items = prune_inputs.input_scalar_items(an.schema, scalars_cfg or {})
+    for (name, _text), d in zip(ins_cls, derived):
+        run.count()
+        if model.is_error(d):
+            run.broken("K1 derive", f"model returned {d!r} for {name}")
+            return
+        m_deps, m_enums, m_needs, m_items = d
+        deps, enums = an.graph.get(name, ([], []))
+        want = sorted(set(needs.get(name, [])))
+        got = sorted(set(m_needs))
+        if m_deps != deps or m_enums != enums or m_items != sc_items.get(name, []) or got != want:
+            run.violation(f"K1: Model/Prune.v derive disagrees for input class {name}: deps {m_deps} vs {deps}; enums {m_enums} "
+                          f"vs {enums}; scalar items {m_items} vs {sc_items.get(name, [])}; import needs {got} vs names "
+                          f"used by the generated class {want}",
+                          {"seed": sc.seed, "schema": sc.sdl, "class": name, "config": sc.config}, found_input=False)
+            return
 
 
 def drive(gens, rng_seed, n_plans):
@@ -338,8 +385,12 @@ def run_stream(ctx, scs, stream, extra_cfg=None, n_plans=2):
                 bi, be = prune_inputs.builder_imports(gens[0].files(), set(an.graph), set(an.enum_names))
                 an.custom, an.builder_inputs, an.builder_enums = True, bi, be
                 run.dist("custom_ops_builder_imports", f"inputs={len(bi)},enums={len(be)}")
-            c, ins_cls, en_cls, needs = model_cmds(an, gens[0].files(), gens[0].res.get("config", {}).get("scalars"))
+            cfg0 = gens[0].res.get("config", {})
+            c, ins_cls, en_cls, needs, dc = model_cmds(an, gens[0].files(), cfg0.get("scalars"),
+                                                       cfg0.get("convert_to_snake_case", True))
             cmds += c
+            derived = model.batch("C09", dc) if dc else []
+            check_derivation(run, sc, an, ins_cls, needs, derived, cfg0.get("scalars"))
             meta.append((an, ins_cls, en_cls, needs))
         mres = model.batch("C09", cmds)
         for i, ((sc, gens), drv, (an, ins_cls, en_cls, needs)) in enumerate(zip(usable, driven, meta)):
@@ -368,6 +419,7 @@ def run(ctx):
         "the enum lists of results/fragments fed to the model are computed by an independent selection walk; "
         "which selections end up in which generated class is C01/C08's business",
     ]
+    preamble_from_source(run)
     k1a(ctx)
     base = ctx.seed * 100000
     n_prune = 260 if ctx.thorough else 44
